@@ -145,6 +145,55 @@ def canon(v):
     return ('repr', repr(v))
 
 
+def eq3(a, b):
+    return (a == b) and (b == a) and not (a != b)
+
+
+def eq_everyone(p, other):
+    """`==` of path p with every kind of path that has equal segments: a new
+    Path (other), new Paths that went through DIFFERENT query histories (their
+    length cached with other tolerances, their point/T2t asked), and p itself
+    (a deep copy) after further queries.  By the property the answer is that of
+    newly constructed Paths of the current segments: they are all equal.  The
+    comparands are separate objects: p itself is not touched.  Returns the
+    conjunction; eq_everyone.detail names the first comparison that failed."""
+    P = impl()
+    eq_everyone.detail = None
+    comparands = [('a new Path of fresh copies of the segments', lambda: other)]
+    for tn in ('T1', 'T2'):
+        e, d = TOLS[tn]
+        def mk(e=e, d=d):
+            o = fresh_path(p)
+            o.length(error=e, min_depth=d)
+            return o
+        comparands.append(('an equal Path whose length was asked with error=%g, min_depth=%d' % (e, d), mk))
+    if P._quad_available:          # the default tolerance is only affordable with quadrature
+        def mk_t2t():
+            o = fresh_path(p)
+            if len(o) > 0:
+                o.T2t(0.3)
+                o.point(0.6)
+            return o
+        comparands.append(('an equal Path whose T2t()/point() were asked', mk_t2t))
+    def mk_self():
+        o = copy.deepcopy(p)
+        o.length(error=TOLS['T2'][0], min_depth=TOLS['T2'][1])
+        o.length(error=TOLS['T1'][0], min_depth=TOLS['T1'][1])
+        return o
+    comparands.append(('the path itself (deep copy) after two more length queries', mk_self))
+    ok = True
+    for name, mk in comparands:
+        o = mk()
+        if not eq3(p, o):
+            ok = False
+            if eq_everyone.detail is None:
+                eq_everyone.detail = name
+    return ok
+
+
+eq_everyone.detail = None
+
+
 def ask(p, ev, other=None):
     """the value (canonical) of query ev on path p, raw value too"""
     k = ev[0]
@@ -163,7 +212,7 @@ def ask(p, ev, other=None):
         elif k == 'qt2t':
             r = p.T2t(ev[1])
         elif k == 'qeq':
-            r = (p == other) and (other == p) and not (p != other)
+            r = eq_everyone(p, other)
         elif k == 'qhash':
             h = hash(p)
             segs = tuple(p._segments)
@@ -339,8 +388,10 @@ def run_history(cfg, init, events, battery, want_case):
             if ev[0] == 'qeq':
                 eq_others.append([seg_data(s) for s in other._segments])
             had = p._length is not None
+            len_before = p._length
             stats['queries'] += 1
             got, raw = ask(p, ev, other)
+            eq_detail = eq_everyone.detail if ev[0] == 'qeq' else None
             want, _ = ask(fr, ev, fresh_path(fr) if ev[0] == 'qeq' else None)
             if ev[0] in LENGTH_QUERIES:
                 if had:
@@ -357,9 +408,15 @@ def run_history(cfg, init, events, battery, want_case):
                     key = 'setter-on-empty-path'
                 elif ev[0] == 'qhash':
                     key = 'path-eq-hash-closed' if got == ('s', 'closed=True') else 'path-hash-stale'
+                elif ev[0] == 'qeq':
+                    key = 'path-eq-depends-on-cache'
                 else:
                     key = 'unclassified-' + ev[0]
-                viols.append((key, '%s answers %r, a new Path of the current segments answers %r' % (ev, got, want), idx))
+                what = '%s answers %r, a new Path of the current segments answers %r' % (ev, got, want)
+                if ev[0] == 'qeq' and eq_detail:
+                    what = ('%s: the path (cached _length %r) compares UNEQUAL to %s; newly constructed Paths of '
+                            'the same segments compare equal' % (ev, len_before, eq_detail))
+                viols.append((key, what, idx))
         else:
             ref = mutate(list(p._segments), ev, is_path=False)
             empty_before = len(p) == 0
